@@ -50,6 +50,8 @@ type Config struct {
 	Hosts        int // number of simulated hosts to allocate (NUT + fake peers + spares)
 	Opts         []pubsub.Option
 	KeepPB       bool
+	// TopicOpts, when set, gives the options the node joins a topic with (e.g. RequestPartialMessages).
+	TopicOpts func(topic string) []pubsub.TopicOpt
 	// PreNUT, when set, runs after the simulated network exists (w.Net, w.H) and before the node under
 	// test is constructed; it may append to w.Cfg.Opts (options that need the ids of other hosts).
 	PreNUT func(w *World)
@@ -612,6 +614,9 @@ func (w *World) join(t string, fanoutOnly bool) *pubsub.Topic {
 	var opts []pubsub.TopicOpt
 	if fanoutOnly {
 		opts = append(opts, pubsub.FanoutOnly())
+	}
+	if w.Cfg.TopicOpts != nil {
+		opts = append(opts, w.Cfg.TopicOpts(t)...)
 	}
 	tp, err := w.NUT.Join(t, opts...)
 	if err != nil {
